@@ -167,7 +167,10 @@ def cause(history, group, table):
         if ev[0] in ("assign", "mutate") and ev_group(ev) == group and ev_table(ev) != table:
             return "leak:%s:%s:%s" % (ev[0], ev[1], ev[2])
     for ev in history:
-        if ev[0] in ("assign", "mutate") and ev[1] in ("_mass", "_density") and ev_table(ev) != table:
+        # a changed mass or density legitimately shows in T's own derived values; on another table it is a leak
+        # (the names, symbols and charge lists of group 'core' do not depend on mass or density)
+        if (group != "core" and ev[0] in ("assign", "mutate") and ev[1] in ("_mass", "_density")
+                and ev_table(ev) != table):
             return "leak:%s:%s:%s" % (ev[0], ev[1], ev[2])
     for ev in history:
         g = ev_group(ev)
